@@ -26,7 +26,8 @@ def optHex : Option (List UInt8) → String
   minmax <sec> <nsec>                  → min max
   gen <clockSeq> <hw> <sec> <nsec>     → uuid newClockSeq
   rand <hex16>                         → stamped uuid
-  conc <goroutines> <each>             → distinct (theorem C19_unique_partial, total ≤ 16384) -/
+  conc <goroutines> <each>             → distinct (theorem C19_unique_partial, total ≤ 16384)
+  tsround / timeround / bound / randchk / parsechk: property oracles, see below -/
 def step (_ : Unit) (ws : List String) : Unit × String :=
   ((), match ws with
   | ["parse", h] => match parseHex h with
@@ -62,6 +63,32 @@ def step (_ : Unit) (ws : List String) : Unit × String :=
       | _, _, _, _ => "bad-op"
   | ["rand", h] => match parseHex h with
       | some u => toHex (Uuid.stampV4 u)
+      | none => "bad-op"
+  -- property-oracle ops (spec-backed: the model's answer is fixed by a theorem of Proofs/C19.lean)
+  | ["tsround", t, c, n] => match natArg t, natArg c, parseHex n with   -- C19_time_roundtrip (t < 2^60)
+      | some t, some c, some n =>
+        let u := Uuid.timeUUIDWith t c n
+        s!"ts={Uuid.timestamp u} v={Uuid.version u} var={Uuid.variant u} clock={Uuid.clock u} node={optHex (Uuid.node u)}"
+      | _, _, _ => "bad-op"
+  | ["timeround", s, n] => match intArg s, natArg n with               -- C19_time_exact (representable instants)
+      | some s, some n =>
+        let f := fun (u : List UInt8) => match Uuid.time u with
+          | some (a, b) => s!"{a}.{b}"
+          | none => "zero"
+        f (Uuid.minTimeUUID s n) ++ " " ++ f (Uuid.maxTimeUUID s n)
+      | _, _ => "bad-op"
+  | ["bound", s, n, h] => match intArg s, natArg n, parseHex h with     -- C19_min_max_bound_time
+      | some s, some n, some u =>
+        if Uuid.Spec.cassLe (Uuid.minTimeUUID s n) u && Uuid.Spec.cassLe u (Uuid.maxTimeUUID s n) then "bounded" else "NOT-BOUNDED"
+      | _, _, _ => "bad-op"
+  | ["randchk", h] => match parseHex h with                             -- C19_random_v4
+      | some u => s!"v={Uuid.version (Uuid.stampV4 u)} var={Uuid.variant (Uuid.stampV4 u)}"
+      | none => "bad-op"
+  | ["parsechk", h] => match parseHex h with                            -- C19_parse_rejects / C19_parse_exact
+      | some bs => match Uuid.parse (runes bs) with
+        | some u => if (runes bs).all (fun c => c = '-' || Uuid.Spec.isHex c) && (Uuid.Spec.digitsOf (runes bs)).length = 32
+                       && u = Uuid.pack (Uuid.digitVals (runes bs)) then "ok" else "ACCEPTED-OUTSIDE-LANGUAGE"
+        | none => "ok"
       | none => "bad-op"
   | ["conc", g, n] => match natArg g, natArg n with
       | some g, some n => if g * n ≤ 16384 then "distinct" else "unconstrained"
